@@ -181,12 +181,33 @@ Section FS.
       end
     end.
 
-  (* deletes (each followed by its directory clean-up), then writes.  [dl]/[ml]: DeletedFiles()
-     and ModifiedFiles() in the order the Go sets happen to yield them *)
-  Definition commit (roots : list str) (fs : fsys) (files : amap C) (dl ml : list str)
+  (* repaired code: the directories of all files to be written are created BEFORE anything is
+     removed *)
+  Fixpoint mkdir_phase (fs : fsys) (ml : list str) : commit_result :=
+    match ml with
+    | [] => CommitOk fs
+    | f :: ml' =>
+      match os_mkdir_all (S (length f)) fs (dir f) with
+      | None => CommitOutOfFuel
+      | Some OsErr => CommitFailed fs
+      | Some (OsOk fs') => mkdir_phase fs' ml'
+      end
+    end.
+
+  (* pinned code: deletes (each followed by its directory clean-up), then writes.  [dl]/[ml]:
+     DeletedFiles() and ModifiedFiles() in the order the Go sets happen to yield them *)
+  Definition commit_pinned (roots : list str) (fs : fsys) (files : amap C) (dl ml : list str)
     : commit_result :=
     match delete_phase roots fs dl with
     | CommitOk fs1 => write_phase files fs1 ml
+    | r => r
+    end.
+
+  (* repaired code: directory creation, deletes, writes *)
+  Definition commit (roots : list str) (fs : fsys) (files : amap C) (dl ml : list str)
+    : commit_result :=
+    match mkdir_phase fs ml with
+    | CommitOk fs0 => commit_pinned roots fs0 files dl ml
     | r => r
     end.
 
@@ -257,4 +278,5 @@ Arguments cleanup_walk {C}. Arguments dir_cleanup_paths {C}.
 Arguments CommitOk {C}. Arguments CommitFailed {C}. Arguments CommitOutOfFuel {C}.
 Arguments remove_all {C}. Arguments delete_one {C}. Arguments delete_phase {C}.
 Arguments write_one {C}. Arguments write_phase {C}. Arguments commit {C}.
+Arguments mkdir_phase {C}. Arguments commit_pinned {C}.
 Arguments finish_command {C}. Arguments load_files {C}. Arguments load_provider {C}.
